@@ -1437,7 +1437,7 @@ def fam_cli(rng, n, prefix):
         d["ch"] = rng.choice([2, 1, 8, 6])
         d["frag"] = False
         d["dry"] = rng.chance(1, 12)
-        d["title"] = rng.choice([None, None, "Hello", "Grüße 世界"])
+        d["title"] = rng.choice([None, None, "Hello", "Grüße 世界", "", " "])
         d["lang"] = rng.choice([None, None, "eng", "deu"])
         d["json"] = rng.chance(1, 2)
         d["verbose"] = rng.chance(1, 4)
@@ -1534,7 +1534,7 @@ def extra_C20(eng, cases):
             argv.append("--fragmented")
         if d["dry"]:
             argv.append("--dry-run")
-        if d["title"]:
+        if d["title"] is not None:
             argv.extend(["--title", d["title"]])
         if d["lang"]:
             argv.extend(["--language", d["lang"]])
@@ -1543,7 +1543,7 @@ def extra_C20(eng, cases):
             c.id, vtok, atok, d["codec"] if d["vcodec_given"] else "~", tok(d["w"]), tok(d["h"]),
             "~" if d["fps"] is None else ("1" if fps_ok(d["fps"]) else "0"),
             d["acodec"] or "~", tok(d["rate"]), tok(d["ch"]), 1 if d["frag"] else 0,
-            hx(d["title"].encode()) if d["title"] else "~", hx(d["lang"].encode()) if d["lang"] else "~",
+            hx(d["title"].encode()) if d["title"] is not None else "~", hx(d["lang"].encode()) if d["lang"] else "~",
             1 if d["dry"] else 0, 0 if d["badout"] else 1))
         plans.append((c, argv, outp))
     p = subprocess.run([DRIVER, "cli"], input=("\n".join(lines) + "\n").encode(), stdout=subprocess.PIPE, timeout=900)
@@ -2037,3 +2037,12 @@ PROPS["C18"]["translated"] = True
 PROPS["C12"]["translated"] = True
 for _p in ("C14", "C01", "C04", "C07", "C10"):
     PROPS[_p]["translated"] = True
+for _p in ("C15", "C01", "C03", "C16"):
+    PROPS[_p]["fams"] = PROPS[_p]["fams"] + [("fam_cross_2p32", 40, 1500)]
+for _p in ("C13", "C17", "C06"):
+    if not any(f[0] == "fam_sink" for f in PROPS[_p]["fams"]):
+        PROPS[_p]["fams"] = PROPS[_p]["fams"] + [("fam_sink", 50, 1000)]
+# C19: field POSITIONS inside configuration records can only be told apart by comparing with the stream's own
+# values, which is what C07's predicate does; evaluate it here as well, on the AV1 syntax family
+PROPS["C19"]["checks"] = PROPS["C19"]["checks"] + ["C07"]
+PROPS["C19"]["fams"] = PROPS["C19"]["fams"] + [("fam_av1_syntax", 80, 2500)]
